@@ -23,6 +23,9 @@ type Call struct {
 	Conn   string // connection UUID
 	DB     int
 	Auth   bool
+	User   string // conn.UserName() as the handler sees it
+	Pass   string // conn.Password() as the handler sees it ("" with HasPw=false: none presented)
+	HasPw  bool
 	UData  int64 // per-connection user-data counter observed (after increment)
 	Method string
 	Str    string     // canonical rendering: Method(args…), times rendered as T:*
@@ -188,7 +191,9 @@ func (h *RecHandler) rec(conn *redis.Conn, method string, str string, t *time.Ti
 	conn.Store(udKey, ud)
 
 	h.mu.Lock()
-	c := Call{Seq: sconn.NextSeq(), N: len(h.Calls) + 1, Conn: conn.UUID().String(), DB: conn.Database(), Auth: conn.IsAuthrized(),
+	user, _ := conn.UserName()
+	pass, hasPw := conn.Password()
+	c := Call{Seq: sconn.NextSeq(), N: len(h.Calls) + 1, Conn: conn.UUID().String(), DB: conn.Database(), Auth: conn.IsAuthrized(), User: user, Pass: pass, HasPw: hasPw,
 		UData: ud, Method: method, Str: str, Time: t, Keys: keys}
 	script := h.Script
 	h.mu.Unlock()
